@@ -63,8 +63,13 @@ pub fn enumerate(l: &Loaded, solver: &mut dyn chalk_solve::Solver<I>, db: &Fault
     }
 }
 
-/// Checks one enumeration against the model. `label` distinguishes fresh / resumed enumerations in counters.
 fn judge_enum(out: &mut CaseOut, label: &str, e: &Enumeration, sem: &mut Sem, uni: &Universe, goal: &MGoal, ex: &[(usize, u32)], exact: bool, text: &str, gtext: &str, nonground_co: bool) {
+    judge_enum_h(out, label, e, sem, uni, goal, ex, exact, text, gtext, nonground_co, false)
+}
+
+/// Checks one enumeration against the model. `label` distinguishes fresh / resumed enumerations in counters;
+/// `stale_tables`: hook H4 showed F11's root-cause condition for this enumeration (it excuses lost answers only).
+fn judge_enum_h(out: &mut CaseOut, label: &str, e: &Enumeration, sem: &mut Sem, uni: &Universe, goal: &MGoal, ex: &[(usize, u32)], exact: bool, text: &str, gtext: &str, nonground_co: bool, stale_tables: bool) {
     let d = |extra: &str| {
         detail(text, gtext, &slg())
             .set("enumeration", label)
@@ -128,7 +133,7 @@ fn judge_enum(out: &mut CaseOut, label: &str, e: &Enumeration, sem: &mut Sem, un
             for s in &sols {
                 let covered = e.seq.iter().any(|y| y.subst.as_ref().map_or(false, |(m, us)| judge::is_instance(m, us, s)));
                 if !covered {
-                    out.violation(None, format!("enumeration finished but the true solution {} is an instance of no yielded answer", judge::show_asg(s)), d("completeness"));
+                    out.violation(if stale_tables { Some("slg:stale-delayed-answer-table") } else { None }, format!("enumeration finished but the true solution {} is an instance of no yielded answer", judge::show_asg(s)), d("completeness"));
                     return;
                 }
             }
@@ -217,36 +222,40 @@ pub fn run(ctx: &Ctx, out: &mut CaseOut) {
             if full.seq.len() > 1 {
                 let db2 = FaultDb::new(&*l.program, "slg");
                 db2.budget.set(400_000);
-                let mut s2 = slg().into_solver();
+                let mut s2 = chalk_engine::solve::SLGSolver::<I>::new(10, None);
                 let stop = stop.min(full.seq.len() - 1).max(1);
-                let part = enumerate(&l, &mut *s2, &db2, &peeled, stop);
+                let part = enumerate(&l, &mut s2, &db2, &peeled, stop);
                 if part.panic.is_some() {
                     return;
                 }
                 judge_enum(out, "stopped-early", &part, &mut sem, &uni, &goal, &ex, exact, &text, &gtext, db2.nonground_coinductive.get());
-                let again = enumerate(&l, &mut *s2, &db2, &peeled, 40);
+                let stale = slg_goal_table_stale(&mut s2, &peeled.goal);
+                let again = enumerate(&l, &mut s2, &db2, &peeled, 40);
+                let stale = stale || slg_stale_table(&mut s2, &peeled.goal);
                 out.evals += 2;
                 if again.panic.is_some() {
                     out.count("solve-panicked(not judged here; see C09)");
                     return;
                 }
-                judge_enum(out, "resumed", &again, &mut sem, &uni, &goal, &ex, exact, &text, &gtext, db2.nonground_coinductive.get());
+                judge_enum_h(out, "resumed", &again, &mut sem, &uni, &goal, &ex, exact, &text, &gtext, db2.nonground_coinductive.get(), stale);
             }
             // a few answers of the previous goal first (shared tables are left partially evaluated), then this goal
             if let Some((ptext, pexs)) = &prev {
                 if let Ok(pp) = lower_and_peel(&l, ptext, pexs) {
                     let db3 = FaultDb::new(&*l.program, "slg");
                     db3.budget.set(400_000);
-                    let mut s3 = slg().into_solver();
+                    let mut s3 = chalk_engine::solve::SLGSolver::<I>::new(10, None);
                     let k = 1 + r.below(4);
-                    let first = enumerate(&l, &mut *s3, &db3, &pp, k);
+                    let first = enumerate(&l, &mut s3, &db3, &pp, k);
                     if first.panic.is_none() {
-                        let then = enumerate(&l, &mut *s3, &db3, &peeled, 40);
+                        let stale = slg_goal_table_stale(&mut s3, &peeled.goal);
+                        let then = enumerate(&l, &mut s3, &db3, &peeled, 40);
+                        let stale = stale || slg_stale_table(&mut s3, &peeled.goal);
                         out.evals += 2;
                         if then.panic.is_some() {
                             out.count("solve-panicked(not judged here; see C09)");
                         } else {
-                            judge_enum(out, "after-partial-other-goal", &then, &mut sem, &uni, &goal, &ex, exact, &text, &gtext, db3.nonground_coinductive.get());
+                            judge_enum_h(out, "after-partial-other-goal", &then, &mut sem, &uni, &goal, &ex, exact, &text, &gtext, db3.nonground_coinductive.get(), stale);
                         }
                     }
                 }
